@@ -125,6 +125,7 @@ class Flow:
     # ------------------------------------------------------------------
     def run(self):
         if not self.ran:
+            self._top = True
             self.block(self.func.body())
             self.ran = True
         return self
@@ -291,6 +292,8 @@ class Flow:
                 self.env[k] = v
         self.inlined = getattr(self, 'inlined', [])
         self.inlined.append(g.site)
+        if getattr(child, '_top_valid', None):
+            self._pending_valid = list(getattr(self, '_pending_valid', [])) + list(child._top_valid)
         # the value of the call
         none = t.atom('const', ('None',))
         if not rets:
@@ -329,6 +332,8 @@ class Flow:
         """Process statements; returns True if the block terminates."""
         pushed = 0
         pushed_v = 0
+        top = getattr(self, '_top', False)
+        self._top = False
         for i, s in enumerate(stmts):
             self._cur_stmt = s
             if isinstance(s, ast.If):
@@ -354,8 +359,10 @@ class Flow:
                         continue
                     self.guards.append(g)
                     pushed += 1
+                pushed_v += self._take_pending()
                 continue
             self.stmt(s)
+            pushed_v += self._take_pending()
             if isinstance(s, (ast.Return, ast.Raise, ast.Break, ast.Continue)):
                 for _ in range(pushed):
                     self.guards.pop()
@@ -363,12 +370,24 @@ class Flow:
                 return True
         for _ in range(pushed):
             self.guards.pop()
+        if top:
+            self._top_valid = list(getattr(self, '_valid', []))[-pushed_v:] if pushed_v else []
         self._popv(pushed_v)
         return False
 
     def _popv(self, n):
         if n:
             self._valid = list(self._valid)[:-n]
+
+    def _take_pending(self):
+        """validations established by an inlined helper (it raised, or it returned): they hold for the rest of
+        the caller's block"""
+        pend = getattr(self, '_pending_valid', None)
+        if not pend:
+            return 0
+        self._valid = list(getattr(self, '_valid', [])) + list(pend)
+        self._pending_valid = []
+        return len(pend)
 
     def if_(self, s):
         test_rf = self.expr(s.test)
